@@ -29,6 +29,9 @@ def as_table(d):
     return [[k, e if e is not None else ["unknown"]] for k, e in ents]
 
 
+ATTACHED = {}
+
+
 def use_the_library():
     """--after-use: before the tables are dumped the library is USED — a facade attached (and re-attached) to devices of every
     peripheral device type, with every bit of the rest of the standard INQUIRY data set and clear, and every facade method called
@@ -46,6 +49,18 @@ def use_the_library():
                 s = SCSI(dev, 512)
             except Exception:  # noqa
                 continue
+            # the table the attached device object carries IS what a caller of that device sees under the standard names
+            try:
+                tbl = dev.opcodes
+                ents = []
+                for k in tbl.keys:
+                    op = getattr(tbl, k)
+                    sa = op.serviceaction
+                    ents.append([k, op.name, op.value, [[sk, getattr(sa, sk)] for sk in sa.keys]])
+                if ents not in ATTACHED.values():
+                    ATTACHED["type %02Xh" % b0] = ents
+            except Exception as e:  # noqa
+                ATTACHED["type %02Xh" % b0] = [["?", "?", -1, [["error", type(e).__name__]]]]
             dev2 = RecordingDevice(ec.spc)
             dev2.fill = lambda cmd, fb=fillbyte: bytes([0x01]) + bytes([fb]) * 95
             try:
@@ -125,6 +140,7 @@ def main():
                 out["unlisted"].append([s, n, "exn", type(e).__name__])
                 continue
             out["unlisted"].append([s, n, "ok", getattr(op, "value", None) if not isinstance(op, int) else op])
+    out["attached"] = ATTACHED
     out["status"] = [[k, getattr(ec.SCSI_STATUS, k)] for k in ec.SCSI_STATUS.keys]
     from pyscsi.pyscsi import scsi_sense as ss
     out["sense"] = dict(
